@@ -245,6 +245,27 @@ for _pid, (_t, _x) in ADD5.items():
     CLAIMED[_pid]["technique"] += _t
     CLAIMED[_pid]["text"] += _x
 
+# rules added during the fifth round of seeded changes
+ADD6 = {
+    "C01": ("; matcher audit of archive walks (errors.Is against io.EOF without an own digest)", " Also: a consumer of a verified stream does not take an error that merely wraps io.EOF for the end of an archive."),
+    "C02": ("; fresh-storage rule for list filters shared with C03.R6", " Also: list filters do not write into the parsed list of the manifest they were given."),
+    "C03": ("; exact-before-loose lookup shared with C06.R6; origin audit of the client's head answers shared with C09.R12", " Also: the layout resolves the tag just written exactly; a blob is skipped only on the target's own answer."),
+    "C04": ("; cache-key completeness shared with C10.R2", " Also: 'already at the target' is answered per repository."),
+    "C05": ("; who-may-close audit of the blob reader's source", " Also: reading a blob to its end does not close the source the upload has to rewind."),
+    "C06": ("; comparison audit of the page merge", " Also: pages of a tag listing are merged without an order assumption."),
+    "C07": ("; GC bookkeeping rule shared with C08.R2", " Also: the lock count of a running copy is never dropped."),
+    "C08": ("; lockset requirement of the referrer helpers shared with C10.R3", " Also: the fallback index that keeps pushed referrers reachable is updated under one hold of the layout mutex."),
+    "C09": ("; origin audit of the client's BlobHead / ManifestHead answers", " Also: existence at the target is asked from the target, never answered from the descriptor."),
+    "C11": ("; origin audit of logged request headers", " Also: request headers reach the log only as the censored copy."),
+    "C12": ("; must-not-return between an IgnoreErr probe and its fallback; who-may-close audit shared with C05.R10", " Also: a single-shot probe falls back on every kind of failure."),
+    "C17": ("; origin audit of the contexts handed to requests and acquires", " Also: no request or acquire of the schemes runs under a context that was not derived from the caller's."),
+    "C18": ("; control dependence of per-entry goroutines on the parallel setting", " Also: entries run in configuration order unless parallelism was configured."),
+    "C19": ("; sweep-only-when-modified rule shared with C08.R2", " Also: closing a layout the run did not write to removes nothing (the close binding is not gated)."),
+}
+for _pid, (_t, _x) in ADD6.items():
+    CLAIMED[_pid]["technique"] += _t
+    CLAIMED[_pid]["text"] += _x
+
 def main():
     props = [json.loads(l)["id"] for l in open("/verif/properties.jsonl")]
     checks = []
